@@ -473,6 +473,22 @@ def r10_read_api_stores_nothing(ctx):
     ctx.ok("C09.R10", ("leaspy.models", "<package>"), None, f"{n_region} functions reachable from the read-only API: no attribute of the model is written", construct="read-only API")
 
 
+def r12_space_shift_enters_the_trajectory(ctx):
+    """'the documented closed form at the supplied parameters': in every configuration that has sources (1 .. dimension - 1 of them), the
+    individual's sources reach the trajectory - `sources` is an ancestor of `model` in the variable graph.  A selection of the trajectory
+    function that drops the space shift for some number of sources gives every individual the unshifted curve, without an error."""
+    from ..specgraph import graphs
+    ctx.rule("C09.R12", "with sources, the trajectory depends on them (`sources` is an ancestor of `model` in every shipped configuration that has sources)", 3)
+    for g in graphs(ctx):
+        if "sources" not in g.nodes or "model" not in g.nodes:
+            continue
+        where = (g.model.cls[0], g.model.cls[1] + ".get_variables_specs")
+        ok = "sources" in g.ancestors("model")
+        ctx.check(ok, "C09.R12", where, None, f"{g.cfg.name}: `model` depends on `sources` (through {sorted(g.ancestors('model') & g.descendants('sources'))[:3]})",
+                  f"{g.cfg.name}: the trajectory `model` (parents {g.nodes['model'].parents}) does not depend on the individual's `sources`: with {g.cfg.source_dimension} source(s) for "
+                  f"{g.cfg.dimension} feature(s) every individual gets the unshifted trajectory instead of the documented one", construct="sources reach the trajectory", instance=g.cfg.name)
+
+
 def rules(ctx):
     # the trajectory is the closed form at the parameters the caller supplied: the container they are put into keeps them unchanged (same rule as C16.R2b)
     from .c16 import r2b_values_stored_as_given
@@ -487,6 +503,7 @@ def rules(ctx):
     r6_layout(ctx)
     r7_requested_ages(ctx)
     r8_conditioning(ctx)
+    r12_space_shift_enters_the_trajectory(ctx)
     ctx.trust("sigmoid is increasing with range (0,1) and sigmoid(-log g) = 1/(1+g); sympy sign assumptions; pandas join keeps the left index order")
     ctx.assume("weights of data variables are 0/1 masks")
 
